@@ -194,6 +194,21 @@ func (cw *ccWorld) robotTx(ch, fn string, args ...string) string {
 	return out.Resp.GetTxResponses()[0].GetError().GetError()
 }
 
+// intruder: a certificate that is not the robot's calls a robot function. An accepted submission of a
+// batched function is then executed by the (honest) robot's next batch.
+func (cw *ccWorld) intruder(c *Ctx, ch string, batched bool, fn string, args ...string) {
+	creator := cw.w.Client.Creator
+	sub := cw.w.Peer.Invoke(ch, creator, fn, args...)
+	if !sub.OK() {
+		c.Count("intruder_refused")
+		return
+	}
+	c.Count("intruder_accepted")
+	if batched {
+		cw.w.ExecBatchIDs(ch, sub.TxID)
+	}
+}
+
 func (cw *ccWorld) robotNB(ch, fn string, args ...string) string {
 	r := cw.w.Peer.Invoke(ch, cw.w.Robot.Creator, fn, args...)
 	if r.OK() {
@@ -287,7 +302,7 @@ func (cw *ccWorld) randUserOp(c *Ctx, ch string) ccUserOp {
 
 func genC10(c *Ctx) error {
 	c.ShardSize = 20
-	c.Notes["rule"] = "two deployed chaincodes (TT, VT), two users and the admin. (one) arbitrary step sequences on one channel: customer / admin initiations (own token, grouped token, other channel's token, foreign token, wrong channel, ids a maintainer would reject, over-funded amounts) and the robot's createTo / cancel / commit / deleteFrom / deleteTo attempted at random times, also out of turn and repeated; observed after every step. (two) interleavings of user initiations on both channels with a robot that picks, at random, among the steps its protocol enables from the two ledgers; both ledgers observed at the end. Non-trivial: a history with >= 2 successful and >= 2 rejected steps / >= 3 robot steps."
+	c.Notes["rule"] = "two deployed chaincodes (TT, VT), two users and the admin. (one) arbitrary step sequences on one channel: customer / admin initiations (own token, grouped token, other channel's token, foreign token, wrong channel, ids a maintainer would reject, over-funded amounts) and the robot's createTo / cancel / commit / deleteFrom / deleteTo attempted at random times, also out of turn and repeated; observed after every step. (two) interleavings of user initiations on both channels with a robot that picks, at random, among the steps its protocol enables from the two ledgers, and with customers' certificates calling the robot's five functions (create-to with the origin's real record, cancel, commit, deletes; an accepted submission is executed by the robot's next batch); both ledgers observed at the end. Non-trivial: a history with >= 2 successful and >= 2 rejected steps / >= 3 robot steps."
 	n := c.N(120, 2500)
 	for i := 0; i < n; i++ {
 		if i%2 == 0 {
@@ -377,6 +392,38 @@ func c10Two(c *Ctx) error {
 			term, _ := cw.userOp(cw.randUserOp(c, ch))
 			acts = append(acts, fmt.Sprintf("AUser %s (%s)", coqBool(ch == "tt"), term))
 			c.Count("two_user")
+			continue
+		}
+		if rng.Intn(100) < 12 {
+			// a customer's certificate calls one of the robot's functions (model: AUser with a robot operation = no effect).
+			// If the submission is accepted the honest robot executes it with its next batch.
+			ch := []string{"tt", "vt"}[rng.Intn(2)]
+			other := map[string]string{"tt": "vt", "vt": "tt"}[ch]
+			id := []string{"i1", "i2", "i3"}[rng.Intn(3)]
+			var term string
+			switch rng.Intn(5) {
+			case 0, 1:
+				cw.intruder(c, ch, true, "cancelCCTransferFrom", id)
+				term = fmt.Sprintf("OCancelFrom %d", cw.idN(id))
+			case 2:
+				cw.intruder(c, ch, false, "commitCCTransferFrom", id)
+				term = fmt.Sprintf("OCommitFrom %d", cw.idN(id))
+			case 3:
+				cw.intruder(c, ch, false, []string{"deleteCCTransferFrom", "deleteCCTransferTo"}[rng.Intn(2)], id)
+				term = fmt.Sprintf("ODeleteFrom %d", cw.idN(id))
+			default:
+				q := cw.w.Peer.Invoke(other, cw.w.Client.Creator, "channelTransferFrom", id)
+				data := string(q.Payload)
+				if !q.OK() || data == "" {
+					tr := &fpb.CCTransfer{Id: id, From: strings.ToUpper(other), To: strings.ToUpper(ch), Token: strings.ToUpper(other), User: cw.users[0].Addr, Amount: big.NewInt(77).Bytes(), ForwardDirection: true}
+					b, _ := json.Marshal(tr)
+					data = string(b)
+				}
+				cw.intruder(c, ch, true, "createCCTransferTo", data)
+				term = fmt.Sprintf("ODeleteTo %d", cw.idN(id)) // any robot operation: a customer's attempt has no effect
+			}
+			acts = append(acts, fmt.Sprintf("AUser %s (%s)", coqBool(ch == "tt"), term))
+			c.Count("two_intruder")
 			continue
 		}
 		// the robot looks at both ledgers and performs one step its protocol enables
